@@ -977,14 +977,60 @@ func constLenOf(v ssa.Value) (int64, bool, string) {
 		}
 		return k, true, ""
 	}
+	// a buffer handed in by the caller (`appendEncoded(…, lbuf, ubuf)`): every caller's buffer
+	if prm, ok := v.(*ssa.Parameter); ok && constLenProg != nil {
+		h := prm.Parent()
+		if h != nil && h.Object() != nil && !h.Object().Exported() && onlyCalledStatically(constLenProg, h) {
+			idx := -1
+			for i, q := range h.Params {
+				if q == prm {
+					idx = i
+				}
+			}
+			min, n := int64(1<<40), 0
+			for _, g := range constLenProg.modFns {
+				if g.Pkg != h.Pkg {
+					continue
+				}
+				for _, f := range withClosures(g) {
+					bad := ""
+					eachInstr(f, func(in ssa.Instruction) {
+						cc := callCommon(in)
+						if cc == nil || cc.StaticCallee() != h || idx < 0 || idx >= len(cc.Args) {
+							return
+						}
+						k, ok, why := constLenOf(cc.Args[idx])
+						if !ok {
+							bad = why
+							return
+						}
+						n++
+						if k < min {
+							min = k
+						}
+					})
+					if bad != "" {
+						return 0, false, bad
+					}
+				}
+			}
+			if n > 0 {
+				return min, true, ""
+			}
+		}
+	}
 	return 0, false, "destination is " + valName(v)
 }
+
+// constLenProg: the program constLenOf may look callers up in (set by the rules that use it).
+var constLenProg *Prog
 
 // checkEncodeDst: the destination handed to the charset encoder must have room
 // for the longest encoding of one character in any registered charset (4 bytes:
 // GB18030), independent of the rune: a destination sized by the UTF-8 length of
 // the rune makes ErrShortDst look like "not representable".
 func checkEncodeDst(c *Ctx, p *Prog, fn *ssa.Function, rule string) {
+	constLenProg = p
 	n := 0
 	eachInstr(fn, func(in ssa.Instruction) {
 		cc := callCommon(in)
